@@ -260,6 +260,11 @@ func managerEngine(args []string) error {
 				defer func() { <-sem }()
 				cmd := exec.Command(os.Args[0], "manager", "-mode", "one", "-seed", fmt.Sprint(c.seed), "-n", fmt.Sprint(i))
 				out, err := cmd.Output()
+				// a watchdog verdict must reproduce: a deadlock is a property of the script, a slow machine is not
+				for try := 0; try < 2 && err == nil && strings.Contains(string(out), "STUCK"); try++ {
+					cmd = exec.Command(os.Args[0], "manager", "-mode", "one", "-seed", fmt.Sprint(c.seed), "-n", fmt.Sprint(i))
+					out, err = cmd.Output()
+				}
 				if err != nil {
 					msg := "crash"
 					if ee, ok := err.(*exec.ExitError); ok {
